@@ -102,6 +102,7 @@ def run(ctx):
             ob_failed.append("harness failed: " + out[-800:])
         else:
             meta = json.load(open(os.path.join(ctx.work, "meta.json")))
+            meta["shards"] = meta.get("shards") or []
             res = ctx.coq_eval_shards(GROUP, ctx.work, meta["shards"])
             for shard, lg in res["_errors"]:
                 ob_failed.append("trace shard %s did not evaluate: %s" % (shard, lg[-600:]))
